@@ -559,6 +559,7 @@ func keysInt(m map[int64]bool) []int64 {
 }
 
 func runC04(w *World, r *Report) {
+	ruleNodeFresh(w, r)
 	ruleProxyTable(w, r, true, false, true)
 	ruleProxyCensus(w, r)
 	ruleCachedGate(w, r)
@@ -574,6 +575,7 @@ func runC04(w *World, r *Report) {
 // ---- C05 ----------------------------------------------------------------------
 
 func runC05(w *World, r *Report) {
+	ruleNodeFresh(w, r)
 	ruleContains(w, r)
 	r.Rule("R-DNE-NOT-ERR", "the not-cached edge of the variable proxy returns the DNE marker with a nil error", 1)
 	ruleProxyTable(w, r, false, true, false)
